@@ -216,6 +216,32 @@ Theorem c18_keygen_okp : forall crv w,
   else mkout (Err EValue) [] w.
 Proof. exact gen_okp_char. Qed.
 
+(* ---- key sets: KeySet.generate_key_set(count = k) is k successive generate_key calls; the keys
+        of the set are exactly the k draws of the call, in order, at the consecutive indices
+        w, ..., w+k-1 (hence pairwise distinct indices), each made as a single
+        JWKRegistry.generate_key call makes it; a failure is the failure of one such call *)
+Theorem c18_key_set_k_draws : forall native_min g private k w keys ds w',
+  gen_key_set native_min g private k w = mkout (Ok keys) ds w' ->
+  ds = keys /\ length keys = k /\
+  map d_idx keys = nseq (w_ctr w) k /\ w_ctr w' = w_ctr w + N.of_nat k /\
+  Forall (fun d => exists w0 w1, gen_one native_min g private w0 = mkout (Ok d) [d] w1) keys.
+Proof. exact gen_key_set_run. Qed.
+
+Theorem c18_key_set_failure : forall native_min g private k w e ds w',
+  gen_key_set native_min g private k w = mkout (Err e) ds w' ->
+  exists w0 ds0 w1, gen_one native_min g private w0 = mkout (Err e) ds0 w1.
+Proof. exact gen_key_set_err. Qed.
+
+Example c18_ex_key_set :
+  let r := gen_key_set 1024 (GEC "P-256") false 4 {| w_ctr := 10 |} in
+  map (fun d => (d_site d, d_size d, d_idx d)) (o_draws r) =
+    [(SEC "P-256", 256, 10); (SEC "P-256", 256, 11); (SEC "P-256", 256, 12); (SEC "P-256", 256, 13)]
+  /\ o_res r = Ok (o_draws r)
+  /\ o_res (gen_key_set 1024 (GOct 128) false 2 {| w_ctr := 0 |}) = Err EValue
+  /\ o_res (gen_key_set 1024 GBadType true 1 {| w_ctr := 0 |}) = Err (EJose InvalidKeyTypeError)
+  /\ o_res (gen_key_set 1024 GBadType true 0 {| w_ctr := 0 |}) = Ok [].
+Proof. vm_compute. repeat split; reflexivity. Qed.
+
 (* ---- histories: for EVERY sequence of encrypt / generate calls (any mode, any
         number of recipients, failing calls included) over tables whose CEK sizes
         are at least one octet: the draws are numbered consecutively from the
@@ -381,9 +407,10 @@ Proof. vm_compute. repeat split; reflexivity. Qed.
 
 Example c18_ex_history :
   let h := [CallEncrypt ex_msg; CallGenOct 256 true; CallGenOct 12 true; CallEncrypt ex_msg;
-            CallGenEC "P-521"; CallGenOKP "Ed448"; CallGenRSA 2048; CallGenRSA 520; CallGenEC "P-999"] in
+            CallGenEC "P-521"; CallGenOKP "Ed448"; CallGenRSA 2048; CallGenRSA 520; CallGenEC "P-999";
+            CallGenSet (GOKP "X25519") true 3] in
   let '(em, ds, w') := run_history jwe_alg_table jwe_enc_table 1024 h {| w_ctr := 0 |} in
-  map d_idx em = [4; 1; 0; 2; 3; 5; 10; 7; 6; 8; 9; 11; 12; 13] /\ length ds = 15%nat /\ w_ctr w' = 15.
+  map d_idx em = [4; 1; 0; 2; 3; 5; 10; 7; 6; 8; 9; 11; 12; 13; 15; 16; 17] /\ length ds = 18%nat /\ w_ctr w' = 18.
 Proof. vm_compute. repeat split; reflexivity. Qed.
 
 Example c18_ex_keygen :
@@ -418,3 +445,5 @@ Print Assumptions c18_values_distinct.
 Print Assumptions c18_object_state_irrelevant.
 Print Assumptions c18_object_encrypt_is_fresh_encrypt.
 Print Assumptions c18_epk_fresh_on_reuse.
+Print Assumptions c18_key_set_k_draws.
+Print Assumptions c18_key_set_failure.
